@@ -52,7 +52,10 @@ pub fn sources(seed: u64) -> Vec<Src> {
         ..Default::default()
     };
     let b1 = build(&spec).0;
-    [b0, b1]
+    // source 2: one deflated entry that claims 5 GiB + 17 bytes through ZIP64 fields (9 stored bytes): a raw copy never
+    // decodes, so the claim must travel into the copy's local header and central record alike
+    let b2 = crate::props::c08::claimed_size_source((5u64 << 30) + 17);
+    [b0, b1, b2]
         .into_iter()
         .map(|b| {
             let parsed = zipparse::parse(&b, &Opts::lenient()).expect("source does not parse");
@@ -186,6 +189,17 @@ pub fn check_seq_io(ops: &[Op], srcs: &[Src], src_bytes: &[Vec<u8>], seed: u64, 
                 if g.name != format!("normal-{k}") || g.content.as_ref().ok() != Some(&normal_content) || g.mode != Some(0o100640) {
                     bad("neighbour-damaged", format!("ordinary entry {k} next to a raw copy reads back as name {:?}, mode {:?}, content ok: {}", g.name, g.mode, g.content.as_ref().ok() == Some(&normal_content)), st);
                 }
+                // ... and its recorded sizes and CRC are its own (central record, local header, crate reader)
+                let n = normal_content.len() as u64;
+                let crc = crate::reference::crc32::crc32(&normal_content);
+                let rawlen = zipparse::raw_data(&bytes, p).map(|r| r.len() as u64).unwrap_or(u64::MAX);
+                if (g.size, g.crc, g.csize) != (n, crc, rawlen) || (p.usize_, p.crc, p.csize) != (n, crc, rawlen) || (p.l_usize, p.l_crc, p.l_csize) != (n, crc, rawlen) {
+                    bad(
+                        "neighbour-metadata",
+                        format!("ordinary entry {k} ({n} bytes, crc {crc:#x}, {rawlen} stored) next to a raw copy records size/crc/compressed {:?} centrally and {:?} in its local header", (p.usize_, p.crc, p.csize), (p.l_usize, p.l_crc, p.l_csize)),
+                        st,
+                    );
+                }
             }
             Op::Copy { src, idx, rename, raw_open } => {
                 let sp = &srcs[*src].parsed.entries[*idx];
@@ -203,6 +217,10 @@ pub fn check_seq_io(ops: &[Op], srcs: &[Src], src_bytes: &[Vec<u8>], seed: u64, 
                 if (p.method, p.crc, p.csize, p.usize_) != (sp.method, sp.crc, sp.csize, sp.usize_) || (g.method, g.crc, g.csize, g.size) != (sp.method, sp.crc, sp.csize, sp.usize_) {
                     bad("method-crc-sizes", format!("{tag}: copy has method {} crc {:#x} csize {} size {}, source {} {:#x} {} {}", p.method, p.crc, p.csize, p.usize_, sp.method, sp.crc, sp.csize, sp.usize_), st);
                 }
+                // the copy's local header is part of the entry: the crate writes no data descriptors, so it must carry the values itself
+                if (p.l_method, p.l_crc, p.l_csize, p.l_usize) != (sp.method, sp.crc, sp.csize, sp.usize_) {
+                    bad("local-header-method-crc-sizes", format!("{tag}: the copy's local header has method {} crc {:#x} csize {} size {}, source {} {:#x} {} {}", p.l_method, p.l_crc, p.l_csize, p.l_usize, sp.method, sp.crc, sp.csize, sp.usize_), st);
+                }
                 if (p.date, p.time) != (sp.date, sp.time) || (g.date, g.time) != (sp.date, sp.time) {
                     bad("timestamp", format!("{tag}: copy has DOS words {:#06x}/{:#06x}, source {:#06x}/{:#06x}", p.date, p.time, sp.date, sp.time), st);
                 }
@@ -211,7 +229,7 @@ pub fn check_seq_io(ops: &[Op], srcs: &[Src], src_bytes: &[Vec<u8>], seed: u64, 
                         bad("permission-bits", format!("{tag}: copy has mode {:?}, source {:o}", g.mode.map(|m| format!("{m:o}")), sm), st);
                     }
                 }
-                if matches!(sp.method, 0 | 8 | 12 | 93) {
+                if matches!(sp.method, 0 | 8 | 12 | 93) && so.content.is_ok() {
                     if g.content != so.content || g.content.is_err() {
                         bad("content", format!("{tag}: copy decodes to {:?} bytes, source to {:?}", g.content.as_ref().map(|c| c.len()), so.content.as_ref().map(|c| c.len())), st);
                     }
@@ -262,7 +280,7 @@ pub fn run(args: &Args) -> i32 {
         " and of length 3 over the reduced alphabet"
     );
     ctx.assume("the source's stored bytes and metadata are taken from the independent parser, not from the crate reader");
-    ctx.uncovered("ZIP64-sized sources (covered by C08's sparse raw copy); encrypted sources (excluded by the statement)");
+    ctx.uncovered("sources with more than 4 GiB of real data (C08's sparse raw copy; here one source only claims such a size); encrypted sources (excluded by the statement)");
     ctx.bound("alphabet_full", json!(full.len()));
     ctx.bound("alphabet_reduced", json!(red.len()));
     let n = full.len() as u64;
